@@ -735,7 +735,7 @@ class Executor:
             while isinstance(v, Agg) and len(v.fields) == 1 and 0 in v.fields:
                 v = v.fields[0]
             return v
-        if kind.startswith("PointerCoercion") or kind in ("PtrToPtr", "FnPtrToPtr"):
+        if kind.startswith("PointerCoercion") or kind in ("PtrToPtr", "FnPtrToPtr", "Subtype"):
             return v
         if kind == "IntToInt":
             t = ty.strip()
